@@ -41,6 +41,7 @@ GROUPS = {
     'Tables': dict(kind='tables', flags=RELEASE),
     'Secure': dict(kind='translate', flags=SECURE, names=SECURE_FNS, namespace='GenS', log_errors=True),
     'Os': dict(kind='translate', flags=RELEASE, names=['_mi_os_free_ex', '_mi_os_good_alloc_size', '_mi_align_up', 'mi_memkind_is_os', '_mi_os_free'], mem=False, namespace='GenO'),
+    'Arena': dict(kind='translate', flags=RELEASE, names=['mi_arena_id_is_suitable', '_mi_arena_memid_is_suitable', 'mi_arena_id_index', 'mi_arena_id_create', '_mi_arena_id_none', 'mi_block_count_of_size', 'mi_arena_block_size', 'mi_arena_size'], mem=False, namespace='GenA', strict=False),
     'Purge': dict(kind='custom', flags=RELEASE, fn='gen_purge'),
     'Formats': dict(kind='custom', flags=RELEASE, fn='gen_formats'),
     'Entry': dict(kind='translate', flags=RELEASE, names=ENTRY, mem=False, explicit_in=('mi_posix_memalign',), namespace='GenE'),
